@@ -594,6 +594,7 @@ static void c20_tis_hash(int complete) {
     ret = TPM_IO_Hash_End(); iso_after();
     tr("op name=hashend loc=%d ret=0 rc=%u out=-", g_locality, ret);
 }
+static int g_c20_tis_drill;   /* set by a scenario that borrows the history: begin with the TIS-hash-across-resume drill */
 static void c20_history(int h, void *arg) {
     int maxops = *(int *)arg;
     Buf b = {0};
@@ -605,6 +606,17 @@ static void c20_history(int h, void *arg) {
     if (h % 6 == 1) { c20fl_history(&b, 70 + rnd(60)); b_free(&b); return; }     /* the enable / activate / ownership / clear automaton */
     if (h % 7 == 6) { c20_pcrread(&b, 0); c20_extend(&b, 0, d); if (chance(50)) c20_tis_hash(1); c20nv_read(&b, 0x00011200u, 0, 4); c20nv_tscpp(&b, 0x20); }   /* before Startup */
     c20_startup(&b);
+    /* drill: the TIS hash (TPM_IO_Hash_Start/Data at locality 4) left in flight across a suspend/resume through the state blobs,
+       then completed: PCR 17 must hold the digest of everything hashed before and after */
+    if (g_c20_tis_drill || h % 5 == 3) { g_locality = 4; c20_tis_hash(0);
+        { unsigned char *blob[2] = {0}; uint32_t len[2] = {0}; TPM_RESULT sr = 0; enum TPMLIB_StateType ty[2] = {TPMLIB_STATE_PERMANENT, TPMLIB_STATE_VOLATILE};
+          for (int k = 0; k < 2; k++) sr |= TPMLIB_GetState(ty[k], &blob[k], &len[k]);
+          TPMLIB_Terminate(); for (int k = 0; k < 2; k++) sr |= TPMLIB_SetState(ty[k], blob[k], len[k]); sr |= TPMLIB_MainInit();
+          for (int k = 0; k < 2; k++) free(blob[k]);
+          tr("resume ret=%u", sr); if (sr != TPM_SUCCESS) { b_free(&b); return; } }
+        c20_rand_bytes(d, 20); if (!iso_before("TPM_IO_Hash_Data", 16)) { TPM_RESULT hr = TPM_IO_Hash_Data(d, 20); iso_after(); tr_begin("op name=hashdata loc=%d ret=0 rc=%u out=-", g_locality, hr); trhex("d", d, 20); tr_end(); }
+        if (!iso_before("TPM_IO_Hash_End", 15)) { TPM_RESULT hr = TPM_IO_Hash_End(); iso_after(); tr("op name=hashend loc=%d ret=0 rc=%u out=-", g_locality, hr); }
+        g_locality = 0; c20_pcrread(&b, 17); }
     /* NV storage: two histories out of three mix NV commands into the PCR/SHA-1 stream; the usual preparation
        (command presence enabled and asserted, a first area) comes first in most of them */
     int nvpct = (h % 3 == 0) ? 0 : (h % 3 == 1) ? 45 : 75;
@@ -675,6 +687,17 @@ static void c20_history(int h, void *arg) {
         case 15:
             if (!tis_open) { int complete = chance(85); c20_tis_hash(complete); tis_open = !complete; }
             else {
+                /* the TIS hash is in flight: a suspend/resume through the state blobs now must carry its SHA-1 context */
+                if (chance(50)) { unsigned char *blob[2] = {0}; uint32_t len[2] = {0}; TPM_RESULT sr = 0;
+                    enum TPMLIB_StateType ty[2] = {TPMLIB_STATE_PERMANENT, TPMLIB_STATE_VOLATILE};
+                    for (int k = 0; k < 2; k++) sr |= TPMLIB_GetState(ty[k], &blob[k], &len[k]);
+                    TPMLIB_Terminate();
+                    for (int k = 0; k < 2; k++) sr |= TPMLIB_SetState(ty[k], blob[k], len[k]);
+                    sr |= TPMLIB_MainInit();
+                    for (int k = 0; k < 2; k++) free(blob[k]);
+                    tr("resume ret=%u", sr);
+                    if (sr != TPM_SUCCESS) { b_free(&b); return; }
+                    if (chance(50)) { c20_rand_bytes(d, 20); if (!iso_before("TPM_IO_Hash_Data", 16)) { TPM_RESULT hr = TPM_IO_Hash_Data(d, 20); iso_after(); tr_begin("op name=hashdata loc=%d ret=0 rc=%u out=-", g_locality, hr); trhex("d", d, 20); tr_end(); } } }
                 if (iso_before("TPM_IO_Hash_End", 15)) break;
                 TPM_RESULT ret = TPM_IO_Hash_End(); iso_after(); tis_open = 0;
                 tr("op name=hashend loc=%d ret=0 rc=%u out=-", g_locality, ret);
@@ -1080,7 +1103,7 @@ static void c19_history(int h, void *arg) {
 static void c19_borrow(int h, void *arg) {
     (void)arg; tr("borrow prop=C20");
     int hh = 2 + 12 * ((h / 5) % 5), maxops = 150;
-    c20_history(hh, &maxops);
+    g_c20_tis_drill = 1; c20_history(hh, &maxops); g_c20_tis_drill = 0;
 }
 static void scen_c19(int histories, int nops) {
     for (int h = 0; h < histories; h++) iso_run(h, rnd64(), h % 5 == 4 ? c19_borrow : c19_history, &nops, 300);
